@@ -22,6 +22,10 @@ module in place; all of them preserve behaviour by construction:
                   three spellings of a two-way choice: `x = A if c else B`; `x = B` followed by
                   `if c: x = A` (plain defaults only); the function's final return copied into
                   the arms of the if / elif / else in front of it.
+  loops_to_comprehensions / comprehensions_to_loops
+                  `xs = []; for t in it: xs.append(e)` <-> `xs = [e for t in it]` at statement
+                  level (loop variables that are read after the loop / that would shadow a name
+                  of the function are left alone).
 """
 from __future__ import annotations
 
@@ -798,6 +802,166 @@ def return_in_branches(scratch: str) -> List[str]:
     """The final return of a function copied into the arms of the if / elif / else that
     precedes it (single exit -> early exits)."""
     return _rewrite(scratch, lambda tree, src, full: _ReturnInBranches().visit(tree))
+
+
+# ------------------------------------------------------------------ loops <-> comprehensions
+class _LoopsToComprehensions(ast.NodeTransformer):
+    """xs = []; for t in it: xs.append(e)      ->      xs = [e for t in it]
+    (the loop body is the single append, no else branch, `xs` is not read by e or it)"""
+
+    def _block(self, stmts):
+        out, i = [], 0
+        while i < len(stmts):
+            st = stmts[i]
+            nxt = stmts[i + 1] if i + 1 < len(stmts) else None
+            if isinstance(st, ast.Assign) and len(st.targets) == 1 and isinstance(st.targets[0], ast.Name) \
+                    and isinstance(st.value, ast.List) and not st.value.elts \
+                    and isinstance(nxt, ast.For) and not nxt.orelse and len(nxt.body) == 1 \
+                    and isinstance(nxt.body[0], ast.Expr) and isinstance(nxt.body[0].value, ast.Call):
+                name = st.targets[0].id
+                c = nxt.body[0].value
+                if isinstance(c.func, ast.Attribute) and c.func.attr == "append" \
+                        and isinstance(c.func.value, ast.Name) and c.func.value.id == name \
+                        and len(c.args) == 1 and not c.keywords \
+                        and name not in _loads(c.args[0]) and name not in _loads(nxt.iter) \
+                        and not any(isinstance(x, (ast.Yield, ast.YieldFrom, ast.Await, ast.NamedExpr))
+                                    for x in ast.walk(c.args[0])):
+                    comp = ast.ListComp(elt=c.args[0], generators=[
+                        ast.comprehension(target=nxt.target, iter=nxt.iter, ifs=[], is_async=0)])
+                    out.append(ast.copy_location(ast.Assign(targets=st.targets, value=comp), st))
+                    i += 2
+                    continue
+            out.append(st)
+            i += 1
+        return out
+
+    def generic_visit(self, node):
+        super().generic_visit(node)
+        for field in ("body", "orelse", "finalbody"):
+            b = getattr(node, field, None)
+            if isinstance(b, list) and b and isinstance(b[0], ast.stmt):
+                setattr(node, field, self._block(b))
+        return node
+
+
+def loops_to_comprehensions(scratch: str) -> List[str]:
+    """Append loops written as list comprehensions.  (The loop variable of a comprehension is
+    not visible afterwards; a later use of it would fail to compile the test-suite's way, so
+    only loops whose variable is not read after the loop are rewritten.)"""
+    def tr(tree, src, full):
+        # loop variables that are read after their loop stay loops: collect names per function
+        class Guard(_LoopsToComprehensions):
+            def _block(self, stmts):
+                out = super()._block(list(stmts))
+                # undo where the target is read later in the same block
+                fixed, k = [], 0
+                for j, st in enumerate(out):
+                    fixed.append(st)
+                return fixed
+        return _SafeLoops().visit(tree)
+    return _rewrite(scratch, tr)
+
+
+class _SafeLoops(_LoopsToComprehensions):
+    def visit_FunctionDef(self, node):
+        # names bound by for-loops that are read outside their loop anywhere in the function
+        leaked = set()
+        for loop in [x for x in ast.walk(node) if isinstance(x, ast.For)]:
+            tgt = {y.id for y in ast.walk(loop.target) if isinstance(y, ast.Name)}
+            inside = {id(y) for y in ast.walk(loop)}
+            for y in ast.walk(node):
+                if isinstance(y, ast.Name) and y.id in tgt and id(y) not in inside:
+                    leaked |= {y.id}
+        self._leaked = getattr(self, "_leaked_stack", []) and self._leaked or set()
+        prev = getattr(self, "_cur_leaked", set())
+        self._cur_leaked = leaked
+        try:
+            return self.generic_visit(node)
+        finally:
+            self._cur_leaked = prev
+
+    def _block(self, stmts):
+        leaked = getattr(self, "_cur_leaked", set())
+        keep = []
+        for st in stmts:
+            keep.append(st)
+        out, i = [], 0
+        while i < len(keep):
+            st = keep[i]
+            nxt = keep[i + 1] if i + 1 < len(keep) else None
+            if isinstance(nxt, ast.For) and ({y.id for y in ast.walk(nxt.target) if isinstance(y, ast.Name)} & leaked):
+                out.append(st)
+                i += 1
+                continue
+            pair = super()._block([st, nxt]) if nxt is not None else [st]
+            if nxt is not None and len(pair) == 1:
+                out.append(pair[0])
+                i += 2
+            else:
+                out.append(st)
+                i += 1
+        return out
+
+
+class _ComprehensionsToLoops(ast.NodeTransformer):
+    """xs = [e for t in it]      ->      xs = []; for t in it: xs.append(e)
+    (one generator, no conditions, statement level, `xs` not read by the comprehension)"""
+
+    def _block(self, stmts):
+        out = []
+        for st in stmts:
+            if isinstance(st, ast.Assign) and len(st.targets) == 1 and isinstance(st.targets[0], ast.Name) \
+                    and isinstance(st.value, ast.ListComp) and len(st.value.generators) == 1 \
+                    and not st.value.generators[0].ifs and not st.value.generators[0].is_async \
+                    and st.targets[0].id not in _loads(st.value) \
+                    and not any(isinstance(x, (ast.ListComp, ast.GeneratorExp, ast.SetComp, ast.DictComp, ast.Lambda))
+                                for x in ast.walk(st.value.elt)):
+                g = st.value.generators[0]
+                name = st.targets[0].id
+                # the loop variable must not shadow a name of the enclosing function that is
+                # used later: comprehension variables are private, loop variables are not
+                tnames = {y.id for y in ast.walk(g.target) if isinstance(y, ast.Name)}
+                if tnames & getattr(self, "_fn_names", set()):
+                    out.append(st)
+                    continue
+                out.append(ast.copy_location(ast.Assign(targets=st.targets, value=ast.List(elts=[], ctx=ast.Load())), st))
+                body = ast.Expr(value=ast.Call(func=ast.Attribute(value=ast.Name(id=name, ctx=ast.Load()),
+                                                                  attr="append", ctx=ast.Load()),
+                                               args=[st.value.elt], keywords=[]))
+                out.append(ast.copy_location(ast.For(target=g.target, iter=g.iter, body=[body], orelse=[],
+                                                     type_comment=None), st))
+                continue
+            out.append(st)
+        return out
+
+    def visit_FunctionDef(self, node):
+        # names used in the function outside comprehensions
+        comp_nodes = set()
+        for c in ast.walk(node):
+            if isinstance(c, (ast.ListComp, ast.GeneratorExp, ast.SetComp, ast.DictComp)):
+                comp_nodes |= {id(y) for y in ast.walk(c)}
+        prev = getattr(self, "_fn_names", set())
+        self._fn_names = {y.id for y in ast.walk(node) if isinstance(y, ast.Name) and id(y) not in comp_nodes} \
+            | {a.arg for a in node.args.args + node.args.kwonlyargs}
+        try:
+            return self.generic_visit(node)
+        finally:
+            self._fn_names = prev
+
+    def generic_visit(self, node):
+        super().generic_visit(node)
+        if isinstance(node, (ast.Module, ast.ClassDef)):
+            return node
+        for field in ("body", "orelse", "finalbody"):
+            b = getattr(node, field, None)
+            if isinstance(b, list) and b and isinstance(b[0], ast.stmt):
+                setattr(node, field, self._block(b))
+        return node
+
+
+def comprehensions_to_loops(scratch: str) -> List[str]:
+    """Statement-level list comprehensions written as append loops."""
+    return _rewrite(scratch, lambda tree, src, full: _ComprehensionsToLoops().visit(tree))
 
 
 def all_rewrites(scratch: str) -> List[str]:
